@@ -71,7 +71,6 @@ pub fn c11_native_selection_operators() {
                     // fitness-based operators on finite objective values: exactly k selected
                     for (name, c) in [("RouletteWheel", RouletteWheel::new::<P>(k, 0.1)), ("SUS", StochasticUniversalSampling::new::<P>(k, 0.1)),
                                       ("LinearRank", LinearRank::new::<P>(k)), ("ExponentialRank", ExponentialRank::new::<P>(k, 0.5).unwrap())] {
-                        if name == "SUS" && k == 0 { continue; }   // distance between selection points is undefined for 0 points
                         match run(c.as_ref(), &source, seed) {
                             Ok(r) => if r.len() != k as usize { eprintln!("COUNTEREXAMPLE {name} objs={objs:?} k={k} seed={seed}: {} selected", r.len()); panic!("fitness-based selection: wrong number selected") },
                             Err(e) => { eprintln!("COUNTEREXAMPLE {name} objs={objs:?} k={k} seed={seed}: {e}"); panic!("fitness-based selection erred on a valid finite population") }
